@@ -1674,9 +1674,7 @@ func (ex *Exec) doOp(op OpSpec) {
 		return
 	case "quiesce":
 		ex.sim.Quiesce("quiesce-op")
-		if !ex.faultedLifetime {
-			ex.quiescentOracles("quiesce-op")
-		}
+		ex.quiescentOracles("quiesce-op")
 		return
 	case "yield":
 		ex.sim.Yield("yield-op")
@@ -1745,9 +1743,7 @@ func (ex *Exec) finalChecks() {
 		return
 	}
 	ex.sim.Quiesce("quiesce-final")
-	if !ex.faultedLifetime {
-		ex.quiescentOracles("final")
-	}
+	ex.quiescentOracles("final")
 	if ex.stop() {
 		return
 	}
@@ -1833,6 +1829,7 @@ func (ex *Exec) dirOracle(where string) {
 
 func (ex *Exec) quiescentOracles(where string) {
 	if ex.faultedLifetime {
+		ex.appendMetricsOracle(where)
 		return
 	}
 	ex.dirOracle(where)
@@ -1846,8 +1843,34 @@ func (ex *Exec) quiescentOracles(where string) {
 	ex.metricsOracle(where)
 }
 
+// appendMetricsOracle: the counters that stay exactly defined while injected
+// errors are about. A StoreLogs that fails appends nothing, whatever it got
+// done before failing, so log_appends / log_entries_written /
+// log_entry_bytes_written count acknowledged calls only. (Truncation, read,
+// stable and rotation counters are ambiguous for a failed call and are judged
+// again after the next Open.)
+func (ex *Exec) appendMetricsOracle(where string) {
+	if ex.mc == nil {
+		return
+	}
+	sum := ex.mc.Summary()
+	for _, n := range []string{"log_appends", "log_entries_written", "log_entry_bytes_written"} {
+		if sum.Counters[n] != ex.want[n] {
+			ex.violate("metrics-add-up", "metric-mismatch-after-failed-call:"+n, "%s: counter %s = %d, true total %d (acknowledged appends only; some call failed with an injected error)", where, n, sum.Counters[n], ex.want[n])
+			return
+		}
+	}
+}
+
 func (ex *Exec) metricsOracle(where string) {
-	if ex.mc == nil || ex.faultedEver && ex.faultedLifetime {
+	if ex.mc == nil {
+		return
+	}
+	if ex.faultedEver {
+		// a call that failed with an injected error leaves the truncation, read,
+		// stable and rotation totals ambiguous for the rest of the run (the
+		// collector outlives reopens): only the append counters stay defined
+		ex.appendMetricsOracle(where)
 		return
 	}
 	sum := ex.mc.Summary()
